@@ -6,6 +6,7 @@ import numpy as np
 from classy_blocks.construct.assemblies.assembly import Assembly
 from classy_blocks.construct.edges import Spline
 from classy_blocks.construct.flat.sketches.disk import HalfDisk
+from classy_blocks.construct.point import Point
 from classy_blocks.construct.shape import Shape
 from classy_blocks.construct.shapes.cylinder import SemiCylinder
 from classy_blocks.types import FloatListType, PointType
@@ -110,14 +111,22 @@ class JointBase(Assembly, abc.ABC):
 
         super().__init__(shapes)
 
+        # kept (and transformed) as a part of its own: mirroring swaps the faces of every
+        # operation, so a point looked up through operations[0].top_face would then be another point
+        self._center_point = Point(center_point)
+
+    @property
+    def parts(self):
+        return [*self.shapes, self._center_point]
+
     @abc.abstractmethod
     def _get_angles(self, count: int) -> FloatListType:
         """Returns angles at which CuspCylinders must be rotated"""
 
     @property
     def center(self):
-        # "center" is the start point
-        return self.shapes[0].operations[0].top_face.points[0].position
+        # "center" is where the branches meet
+        return self._center_point.position
 
     def chop_axial(self, **kwargs):
         for asm in self.assemblies:
